@@ -15,6 +15,8 @@ import Gts.Lemmas.Select
 import Gts.Lemmas.LessOrder
 import Gts.Lemmas.SelectEsc
 import Gts.Bridge.FeatSelector
+import Gts.Bridge.CmdSelect
+import Gts.Bridge.CmdSort
 namespace Gts.C19
 open Gts Loc SelSpec
 
@@ -545,5 +547,172 @@ example :
         ⟨"exon", joined [ranged 4 6 false false, ranged 0 2 false false], []⟩,
         ⟨"CDS", ranged 1 3 false false, []⟩, ⟨"source", ranged 2 4 false false, []⟩]).map (·.key)
       = ["source", "source", "exon", "gene", "CDS"] := by decide
+
+/-! ## the CLI glue: `gts select`, `gts clear`, `gts define`, `gts annotate`, `gts sort`
+
+What the COMMANDS do with the library functions above.  `Cli.selectFilter`, `Cli.selectStep` … (Gts/Model/CliGlue.lean)
+are the statements of cmd/gts/select.go …; `Gts.Gen.selectFilter`, `Gts.Gen.selectStep` … are REGENERATED from those files
+on every run (go2lean/cmdsteps.go) and `Gts/Bridge/CmdSelect.lean`, `CmdSort.lean` prove them equal to the model — so the
+`…_cli_step` theorems are statements about the code as it is written now. -/
+
+/-- the strand condition `-s` asks for: `forward` = `ForwardStrand`, `reverse` = `ReverseStrand`, any other word (the
+default `both`) = no condition -/
+def strandOk (strand : String) (f : Feature) : Bool :=
+  if strand = "forward" then forwardStrand f else if strand = "reverse" then reverseStrand f else true
+
+/-- FULL STATEMENT (false today, known finding K19B): "a feature is kept iff (its key is `source` or (SOME selector
+accepts it) ≠ `-v`) and it meets the strand condition", for every list of selectors.  With NO selector `Or()` is
+`TrueFilter`: `gts select` without selectors keeps every feature (and `gts select -v` only the source features), where
+"some selector accepts" is false. -/
+theorem select_spec_full_refuted :
+    ¬ (∀ (sels : List Filter) (invert : Bool) (strand : String) (f : Feature),
+        Cli.selectFilter sels invert strand f =
+          ((decide (f.key = "source") || ((sels.any fun p => p f) != invert)) && strandOk strand f)) := by
+  intro h
+  exact absurd (h [] false "both" ⟨"gene", .point 1, []⟩) (by decide)
+
+/-- **the filter of `gts select`** (guard: at least one selector — K19B): a feature is kept iff
+(its key is `source` ∨ (some selector accepts it) ≠ `-v`) ∧ the `-s` strand condition.  The negation of `-v` covers
+the selectors only: not the `source` exemption, not the strand condition (seeded W10-1 moved the strand condition
+inside it). -/
+theorem select_spec_partial (sels : List Filter) (hne : sels ≠ []) (invert : Bool) (strand : String) (f : Feature) :
+    Cli.selectFilter sels invert strand f =
+      ((decide (f.key = "source") || ((sels.any fun p => p f) != invert)) && strandOk strand f) := by
+  have hor : orF sels f = sels.any fun p => p f := or_spec_partial sels hne f
+  have hk : keyF "source" f = decide (f.key = "source") := by simp [keyF]
+  have ho2 : ∀ p q : Filter, orF [p, q] f = (p f || q f) := fun p q => by simp [orF]
+  have ha2 : ∀ p q : Filter, andF [p, q] f = (p f && q f) := fun p q => by simp [andF]
+  simp only [Cli.selectFilter, strandOk]
+  by_cases h1 : strand = "forward"
+  · rw [if_pos h1, if_pos h1, ha2, ho2, hk]
+    cases invert
+    · simp [hor]
+    · simp [notF, hor]
+  · rw [if_neg h1, if_neg h1]
+    by_cases h2 : strand = "reverse"
+    · rw [if_pos h2, if_pos h2, ha2, ho2, hk]
+      cases invert
+      · simp [hor]
+      · simp [notF, hor]
+    · rw [if_neg h2, if_neg h2, ho2, hk]
+      cases invert
+      · simp [hor]
+      · simp [notF, hor]
+
+/-- without a selector (K19B): everything passes the selector part unless `-v`, which then leaves the source features -/
+theorem select_spec_nil (invert : Bool) (strand : String) (f : Feature) :
+    Cli.selectFilter [] invert strand f = ((decide (f.key = "source") || !invert) && strandOk strand f) := by
+  have hor : orF [] f = true := rfl
+  have hk : keyF "source" f = decide (f.key = "source") := by simp [keyF]
+  have ho2 : ∀ p q : Filter, orF [p, q] f = (p f || q f) := fun p q => by simp [orF]
+  have ha2 : ∀ p q : Filter, andF [p, q] f = (p f && q f) := fun p q => by simp [andF]
+  simp only [Cli.selectFilter, strandOk]
+  by_cases h1 : strand = "forward"
+  · rw [if_pos h1, if_pos h1, ha2, ho2, hk]
+    cases invert
+    · simp [hor]
+    · simp [notF, hor]
+  · rw [if_neg h1, if_neg h1]
+    by_cases h2 : strand = "reverse"
+    · rw [if_pos h2, if_pos h2, ha2, ho2, hk]
+      cases invert
+      · simp [hor]
+      · simp [notF, hor]
+    · rw [if_neg h2, if_neg h2, ho2, hk]
+      cases invert
+      · simp [hor]
+      · simp [notF, hor]
+
+/-- non-vacuity, and the case W10-1 changes: `-v -s forward` with a selector that accepts a REVERSE-strand gene — the
+gene is not kept (it fails the strand condition), although it is "not (selected and forward)" -/
+example :
+    let sel : Filter := keyF "gene"
+    let g : Feature := ⟨"CDS", .compl (.ranged 1 4 false false), []⟩
+    Cli.selectFilter [sel] true "forward" g = false ∧
+      ((decide (g.key = "source") || (([sel].any fun p => p g) != true)) && strandOk "forward" g) = false := by
+  decide
+
+/-- **`gts select`, the command as written**: for at least one selector the regenerated filter-building statements
+yield a filter (no panic) and the regenerated scan-loop body writes exactly one record: the features with
+(`source` ∨ selected ≠ `-v`) ∧ strand, in table order, residues as they are. -/
+theorem select_cli_step (sels : List Filter) (hne : sels ≠ []) (invert : Bool) (strand : String) (s : Seq) :
+    ∃ flt, Gen.selectFilter sels strand invert = some flt ∧
+      Gen.selectStep flt s = some [⟨s.feats.filter fun f =>
+        (decide (f.key = "source") || ((sels.any fun p => p f) != invert)) && strandOk strand f, s.bytes⟩] := by
+  refine ⟨_, Bridge.selectFilter_eq sels strand invert, ?_⟩
+  rw [Bridge.selectStep_eq]
+  have : Cli.selectFilter sels invert strand = fun f =>
+      (decide (f.key = "source") || ((sels.any fun p => p f) != invert)) && strandOk strand f :=
+    funext fun f => select_spec_partial sels hne invert strand f
+  simp [Cli.selectStep, Cli.withFeats, this]
+
+example : ∃ flt, Gen.selectFilter [keyF "gene"] "reverse" true = some flt ∧
+    Gen.selectStep flt ⟨[⟨"source", .ranged 0 9 false false, []⟩, ⟨"gene", .compl (.point 1), []⟩], [65]⟩ =
+      some [⟨[⟨"source", .ranged 0 9 false false, []⟩, ⟨"gene", .compl (.point 1), []⟩].filter fun f =>
+        (decide (f.key = "source") || (([keyF "gene"].any fun p => p f) != true)) && strandOk "reverse" f, [65]⟩] :=
+  select_cli_step _ (by simp) _ _ _
+
+/-- **`gts clear`, the command as written**: exactly the `source` features stay, in table order -/
+theorem clear_cli_step (s : Seq) :
+    Gen.clearStep s = some [⟨s.feats.filter fun f => decide (f.key = "source"), s.bytes⟩] := by
+  rw [Bridge.clearStep_eq]
+  have : keyF "source" = fun f => decide (f.key = "source") := by funext f; simp [keyF]
+  simp [Cli.clearStep, Cli.withFeats, this]
+
+example : Gen.clearStep ⟨[⟨"source", .point 0, []⟩, ⟨"gene", .point 1, []⟩], [65, 67]⟩ =
+    some [⟨[⟨"source", .point 0, []⟩, ⟨"gene", .point 1, []⟩].filter fun f => decide (f.key = "source"), [65, 67]⟩] :=
+  clear_cli_step _
+
+/-- **`gts define`, the command as written**: the record gets the new feature and loses none (a permutation of
+`f :: table`), and a table with its sources first and the rest in location order stays one -/
+theorem define_cli_step (f : Feature) (s : Seq) :
+    ∃ t, Gen.defineStep f s = some [⟨t, s.bytes⟩] ∧ t.Perm (f :: s.feats) ∧ (Table.Ok s.feats → Table.Ok t) :=
+  ⟨Table.insert s.feats f, Bridge.defineStep_eq f s, insert_perm _ _, fun h => Table.insert_ok _ _ h⟩
+
+example : ∃ t, Gen.defineStep ⟨"gene", .ranged 1 3 false false, []⟩ ⟨[⟨"source", .point 0, []⟩, ⟨"CDS", .point 4, []⟩], [65, 67, 71, 84, 65]⟩
+      = some [⟨t, [65, 67, 71, 84, 65]⟩] ∧
+    t.Perm (⟨"gene", .ranged 1 3 false false, []⟩ :: [⟨"source", .point 0, []⟩, ⟨"CDS", .point 4, []⟩]) ∧
+    (Table.Ok [⟨"source", .point 0, []⟩, ⟨"CDS", .point 4, []⟩] → Table.Ok t) := define_cli_step _ _
+
+/-- **`gts annotate`, the command as written**: the record gets every feature of the table file and loses none, and
+the table invariant is kept -/
+theorem annotate_cli_step (featin : List Feature) (s : Seq) :
+    ∃ t, Gen.annotateStep featin s = some [⟨t, s.bytes⟩] ∧ t.Perm (featin.reverse ++ s.feats) ∧
+      (Table.Ok s.feats → Table.Ok t) :=
+  ⟨Table.insertAll s.feats featin, Bridge.annotateStep_eq featin s, insertAll_perm _ _, fun h => insertAll_inv _ _ h⟩
+
+example : ∃ t, Gen.annotateStep [⟨"gene", .point 1, []⟩] ⟨[⟨"source", .point 0, []⟩], [65, 67]⟩ = some [⟨t, [65, 67]⟩] ∧
+    t.Perm ([⟨"gene", .point 1, []⟩].reverse ++ [⟨"source", .point 0, []⟩]) ∧
+    (Table.Ok [⟨"source", .point 0, []⟩] → Table.Ok t) := annotate_cli_step _ _
+
+/-- **`gts sort`, the order as written**: whatever `sort.Sort` does beyond its contract, a result in which no later
+record is `Less` — the REGENERATED `byLength.Less`, behind `-r` with its arguments swapped by `sort.Reverse` — than an
+earlier one has its lengths in DESCENDING order (`-r`: ascending).  (Records of one length are ties: their order is
+not determined, `sort.Sort` is not stable.) -/
+theorem sort_cli_step (reverse : Bool) (out : List Seq)
+    (hsorted : ∀ i j : Nat, i < j → j < out.length →
+      (if reverse then Gen.byLengthLess out i j else Gen.byLengthLess out j i) = some false) :
+    ∀ (i j : Nat) (_ : i < j) (hj : j < out.length),
+      if reverse then (out[i]'(by omega)).len ≤ out[j].len else out[j].len ≤ (out[i]'(by omega)).len := by
+  intro i j hij hj
+  have hi : i < out.length := by omega
+  have h := hsorted i j hij hj
+  cases reverse
+  · simp only [Bool.false_eq_true, if_false] at h ⊢
+    rw [Bridge.byLengthLess_eq out j i _ _ (List.getElem?_eq_getElem hj) (List.getElem?_eq_getElem hi)] at h
+    simp only [Cli.lenLess, Bool.false_eq_true, if_false, Option.some.injEq, decide_eq_false_iff_not] at h
+    omega
+  · simp only [if_true] at h ⊢
+    rw [Bridge.byLengthLess_eq out i j _ _ (List.getElem?_eq_getElem hi) (List.getElem?_eq_getElem hj)] at h
+    simp only [Cli.lenLess, Bool.false_eq_true, if_false, Option.some.injEq, decide_eq_false_iff_not] at h
+    omega
+
+/-- non-vacuity: three records, longest first, meet the hypothesis for `reverse = false` -/
+example : ∀ i j : Nat, i < j → j < ([⟨[], [1, 2, 3]⟩, ⟨[], [1, 2]⟩, ⟨[], [1, 2]⟩] : List Seq).length →
+    Gen.byLengthLess [⟨[], [1, 2, 3]⟩, ⟨[], [1, 2]⟩, ⟨[], [1, 2]⟩] j i = some false := by
+  intro i j hij hj
+  have hj3 : j < 3 := hj
+  obtain ⟨rfl, rfl⟩ | ⟨rfl, rfl⟩ | ⟨rfl, rfl⟩ : (i = 0 ∧ j = 1) ∨ (i = 0 ∧ j = 2) ∨ (i = 1 ∧ j = 2) := by omega
+  all_goals decide +kernel
 
 end Gts.C19
